@@ -729,10 +729,10 @@ def run(ck: core.Check):
 
     quick = ck.tier == "quick"
     maxdepth = 3 if quick else 4
-    n_schemas = 2000 if quick else 20000
+    n_schemas = 4000 if quick else 30000
     nrows = 3 if quick else 6
     n_noise = 6000 if quick else 60000
-    n_ci = 160 if quick else 1600
+    n_ci = 480 if quick else 3000
 
     # corpus first: tie on fixed header lists (tests' own, quirks, past findings)
     drv = core.Driver()
